@@ -471,6 +471,7 @@ class Evaluator:
         self.eqsubst = {}
         self.order = {}  # (keyA, keyB) -> 'lt' | 'eq' | 'gt'   (facts assumed by the rule: ORD enumeration)
         self.facts = {}  # cond key -> bool
+        self.fact_trees = {}  # cond key -> tree (for rules that read the current path condition)
         self.faults = []  # (kind, ast node, text, base key): constant subscripts outside a known shape
         self.qual_alias = {}  # defining qualname -> the name a rule uses for a function it keeps opaque
         self.strmod_nodes = set()  # BinOp(Mod) nodes whose left operand evaluated to a string
@@ -508,6 +509,7 @@ class Evaluator:
                 k = ckey(t)
                 if k not in ev.facts:
                     ev.facts[k] = p_
+                    ev.fact_trees[k] = t
                     added.append(k)
 
         class _Ctx:
@@ -1811,6 +1813,8 @@ class Evaluator:
                     a.pos += 1
                     return items[0]
             return Opaque("next(%s)" % key(args[0]))
+        if name == "bool" and len(args) == 1 and not kwargs:
+            return self.truth(args[0])
         if name == "chr" and len(args) == 1:
             return Template([("hole", args[0], "chr")])
         if name == "ord" and len(args) == 1:
